@@ -171,14 +171,23 @@ func release(k unsafe.Pointer) {
 // Lock replaces X.Lock() for sync.Mutex and sync.RWMutex.
 func Lock(m tryLocker, site string) { acquire(key(m), m.TryLock, site) }
 
+// afterRelease is a schedule point right after a critical section ends (coop mode only): a
+// task can be preempted between releasing a lock and whatever it does next with the state it
+// read under the lock.
+func afterRelease(site string) {
+	if s := cur.Load(); s != nil {
+		s.yield(site)
+	}
+}
+
 // Unlock replaces X.Unlock().
-func Unlock(m tryLocker, site string) { k := key(m); m.Unlock(); release(k) }
+func Unlock(m tryLocker, site string) { k := key(m); m.Unlock(); release(k); afterRelease(site) }
 
 // RLock replaces X.RLock().
 func RLock(m tryRLocker, site string) { acquire(key(m), m.TryRLock, site) }
 
 // RUnlock replaces X.RUnlock().
-func RUnlock(m tryRLocker, site string) { k := key(m); m.RUnlock(); release(k) }
+func RUnlock(m tryRLocker, site string) { k := key(m); m.RUnlock(); release(k); afterRelease(site) }
 
 // Yield is a schedule point inserted before atomics, after blocking receives and at
 // goroutine starts.
